@@ -535,3 +535,43 @@ func Harness_C01_unloaded_instance_issues_no_numbers() {
 	verifAssert(!accepted && t.lastID == n0 && len(fx.store.msgs) == rows0, "unloaded-instance-issues-no-number")
 	verifReach("end")
 }
+
+// ---- C01: messages the server writes itself (call accepted / finished / missed replacements go through
+// saveAndBroadcastMessage without a {pub}): a failed save consumes no number and shows nothing to anybody.
+func Harness_C01_server_generated_message_fault() {
+	fx := verifNewTopic(verifKindP2P, 2)
+	t := fx.topic
+	t.lastID = verifSeq("lastID")
+	fx.store.topics[t.name].SeqId = t.lastID
+	author, peer := fx.uids[0], fx.uids[1]
+	sa := verifNewSession("sid-a", author, auth.LevelAuth, 32)
+	sb := verifNewSession("sid-b", peer, auth.LevelAuth, 32)
+	fx.attach(sa, author, false)
+	fx.attach(sb, peer, false)
+	fx.store.failAt = verifChoose("failAt", 4) - 1
+	n0, rows0 := t.lastID, len(fx.store.msgs)
+	msg := &ClientComMessage{AsUser: author.UserId(), AuthLvl: int(auth.LevelAuth), Original: t.original(author), RcptTo: t.name,
+		Timestamp: types.TimeNow(), sess: sa, init: true}
+	head := map[string]any{"webrtc": "accepted", "replace": ":3", "mime": "application/x-tinode-webrtc"}
+	err := t.saveAndBroadcastMessage(msg, author, false, nil, head, "call")
+	datas := 0
+	for _, s := range []*Session{sa, sb} {
+		for _, r := range verifDrainSend(s) {
+			if r != nil && r.Data != nil {
+				datas++
+				verifAssert(r.Data.SeqId == n0+1, "copy-carries-the-new-number")
+			}
+		}
+	}
+	stored := fx.store.topics[t.name].SeqId
+	if err != nil || fx.store.failed && len(fx.store.msgs) == rows0 {
+		verifAssert(err != nil, "failed-save-is-reported")
+		verifAssert(t.lastID == n0, "failed-save-consumes-no-number")
+		verifAssert(datas == 0, "failed-save-shows-nothing")
+	} else {
+		verifAssert(t.lastID == n0+1 && len(fx.store.msgs) == rows0+1, "saved-message-takes-the-next-number")
+		verifAssert(datas == 2, "saved-message-reaches-both-parties")
+	}
+	verifAssert(stored >= t.lastID, "stored-high-water-mark-covers-every-number-shown")
+	verifReach("end")
+}
